@@ -152,6 +152,10 @@ Definition data_word_codes (running : bool) (w : list N) (active_lanes : N) : li
 
 (* ItsPayloadWord::from_id (its/lib.rs) -- simple word type by identifier *)
 Inductive wtype := W_IHW | W_TDH | W_TDT | W_DDW0 | W_CDW | W_DATA.
-Definition fsm_data_id (id : N) : bool :=
-  N_in_range 32 40 id || N_in_range 64 70 id || N_in_range 72 78 id ||
-  N_in_range 80 86 id || N_in_range 88 94 id.
+(* membership in a flat range pattern [lo1; hi1; lo2; hi2; ...] (Rust `a..=b | c..=d`) *)
+Fixpoint in_pat (pat : list N) (id : N) : bool :=
+  match pat with
+  | lo :: hi :: r => N_in_range lo hi id || in_pat r id
+  | _ => false
+  end.
+Definition fsm_data_id (id : N) : bool := in_pat Gen.Facts.from_id_data_pat id.
